@@ -10,13 +10,16 @@ from common import R, fl
 
 from common import wiring_pre_build as pre_build  # noqa: E402,F401
 
-LEAN_MODULES = ["PyomaVerif.Props.C11", "PyomaVerif.Mutants.C11", "PyomaVerif.Props.WiringMpe", "PyomaVerif.Props.C11Plscf", "PyomaVerif.Props.C11Stored"]
+LEAN_MODULES = ["PyomaVerif.Props.C11", "PyomaVerif.Mutants.C11", "PyomaVerif.Props.WiringMpe", "PyomaVerif.Props.C11Plscf", "PyomaVerif.Props.C11Stored", "PyomaVerif.Props.WiringClass", "PyomaVerif.Props.WiringCalls"]
 THEOREMS = [
     # call-site wiring of the class layer, regenerated from /repo on every run (translate_wiring.py)
     "PV.WiringMpe.C11_ssi_mpe_args",
     "PV.WiringMpe.C11_ssi_mpe_stores",
     "PV.WiringMpe.C11_plscf_mpe_args",
     "PV.WiringMpe.C11_plscf_mpe_stores",
+    "PV.WiringClass.C11_mpe_inherited",
+    "PV.WiringCalls.C11_mpe_calls",
+    "PV.WiringMpe.C11_mpe_stores_exact",
     "PV.C11.C11_whole",
     "PV.C11.C11_nearest",
     "PV.C11.C11_only_if_close",
